@@ -203,3 +203,17 @@ func sortedBeforeUse(f *core.Func, rs *ast.RangeStmt, x *types.Var) (bool, strin
 	// and it is sorted at all if used
 	return true, ""
 }
+
+// sortedKeysOperand: e is (a local defined as) slices.Sorted(maps.Keys(M)); returns M.
+func sortedKeysOperand(info *types.Info, body ast.Node, e ast.Expr) ast.Expr {
+	e, _ = core.Resolve(info, body, e)
+	c := core.AsCall(info, e, "slices.Sorted")
+	if c == nil || len(c.Args) != 1 {
+		return nil
+	}
+	kc := core.AsCall(info, c.Args[0], "maps.Keys")
+	if kc == nil || len(kc.Args) != 1 {
+		return nil
+	}
+	return kc.Args[0]
+}
